@@ -153,6 +153,20 @@ impl AckFrame {
         self.ecn.take()
     }
 
+    /// Whether every acknowledged range stays at or above packet number 0.
+    ///
+    /// RFC 9000 section 19.3.1: if any computed packet number is negative, an endpoint MUST generate
+    /// a connection error of type FRAME_ENCODING_ERROR. [`AckFrame::iter`] relies on this.
+    pub fn is_well_formed(&self) -> bool {
+        let mut smallest = self.largest.into_u64().checked_sub(self.first_range.into_u64());
+        for (gap, range) in &self.ranges {
+            smallest = smallest
+                .and_then(|smallest| smallest.checked_sub(gap.into_u64() + 2))
+                .and_then(|largest| largest.checked_sub(range.into_u64()));
+        }
+        smallest.is_some()
+    }
+
     /// Iterate through the sequence numbers of the packets acknowledged by the iterative ACK frame,
     /// starting from the largest and going down.
     pub fn iter(&self) -> impl Iterator<Item = RangeInclusive<u64>> + '_ {
